@@ -17,6 +17,8 @@ import (
 // aside and restored by Get): a stale reader sees an empty object, and a
 // stale write is detected, by a scanner that looks at all pooled objects
 // every 100 ms and again when the object leaves the pool.
+// Every other Get takes the object released last instead of the oldest one
+// (immediate reuse, the other thing a stale holder has to survive).
 // Objects must be pointers (comparable).
 const vfObjQuarantine = 512
 
@@ -33,6 +35,8 @@ type ObjPool struct {
 	q   []vfParkedObj
 	in  map[any]struct{}
 	reg bool
+
+	gets uint64
 }
 
 var vfObjPools struct {
@@ -74,6 +78,21 @@ func (o *vfParkedObj) check() {
 
 func (p *ObjPool) Get() any {
 	p.mu.Lock()
+	p.gets++
+	if n := len(p.q); n > 0 && p.gets%2 == 1 {
+		// every other Get hands out the object released last, as sync.Pool
+		// usually does: a stale holder meets the next owner at once
+		o := p.q[n-1]
+		p.q[n-1] = vfParkedObj{}
+		p.q = p.q[:n-1]
+		delete(p.in, o.v)
+		o.check()
+		if o.saved.IsValid() {
+			reflect.ValueOf(o.v).Elem().Set(o.saved)
+		}
+		p.mu.Unlock()
+		return o.v
+	}
 	if len(p.q) > vfObjQuarantine {
 		o := p.q[0]
 		p.q[0] = vfParkedObj{}
